@@ -141,8 +141,7 @@ theorem exportBpe_canonical (vocab : List (Id × Bytes)) (hd : List.Pairwise (fu
 
 theorem exportUnigram_canonical (vocab : List (Id × Bytes)) (scores : List UInt32)
     (hn : ∀ s ∈ scores, f32IsNaN s = false)
-    (hs : strictlySorted (fun x y : (Id × Bytes) × UInt32 =>
-        decide (f32Key x.2 < f32Key y.2) || (f32Key x.2 == f32Key y.2 && decide (x.1.1 ≤ y.1.1))) (vocab.zip scores))
+    (hs : strictlySorted uniExportLe (vocab.zip scores))
     (xs : List ((Id × Bytes) × UInt32)) (hp : xs.Perm (vocab.zip scores)) :
     exportUnigram xs = .ok (vocab.zip scores) := by
   unfold exportUnigram
@@ -157,7 +156,7 @@ theorem exportUnigram_canonical (vocab : List (Id × Bytes)) (scores : List UInt
     cases hnan
   rw [if_neg hany]
   congr 1
-  exact mergeSort_eq_of_strictlySorted _ (fun a => by simp) _ xs hs hp
+  exact mergeSort_eq_of_strictlySorted _ (fun a => by simp [uniExportLe, bytesLe_refl]) _ xs hs hp
 
 /-! ## WordPiece -/
 
